@@ -1,12 +1,14 @@
 package checks
 
 import (
+	"errors"
 	"fmt"
 	"reflect"
 	"strings"
 
 	"github.com/trustbloc/sidetree-go/pkg/api/operation"
 	"github.com/trustbloc/sidetree-go/pkg/api/protocol"
+	"github.com/trustbloc/sidetree-go/pkg/versions/1_0/operationparser"
 
 	"verifharness/fw"
 	"verifharness/gen"
@@ -23,6 +25,21 @@ type opStep struct {
 	Anchor       oracle.Anchor
 	AnchoredType string
 	nextU, nextR *gen.Key
+}
+
+// hostileValidators refuse every anchor origin and every time window (and count how often they are asked).
+type hostileValidators struct{ calls int }
+
+func (v *hostileValidators) Validate(interface{}) error {
+	v.calls++
+	return errors.New("anchor origin refused by harness")
+}
+
+type hostileTime struct{ v *hostileValidators }
+
+func (t hostileTime) Validate(int64, int64) error {
+	t.v.calls++
+	return operationparser.ErrOperationExpired
 }
 
 type histCtx struct {
@@ -48,6 +65,25 @@ type failClass struct {
 	name   string
 	types  string // subset of "curd"
 	mutate func(h *histCtx, s *opStep)
+}
+
+// nonCanonicalSpelling returns another text that the lenient base64 decoder maps to the same bytes
+// (non-zero spare bits in the last character where there are any, otherwise an embedded line break).
+func nonCanonicalSpelling(r *fw.Rand, h string) string {
+	const alpha = "ABCDEFGHIJKLMNOPQRSTUVWXYZabcdefghijklmnopqrstuvwxyz0123456789-_"
+	if len(h)%4 != 0 && r.Bool() {
+		spare := uint(2)
+		if len(h)%4 == 2 {
+			spare = 4
+		}
+		idx := strings.IndexByte(alpha, h[len(h)-1])
+		alt := (idx &^ (1<<spare - 1)) | ((idx + 1) & (1<<spare - 1))
+		if alt != idx {
+			return h[:len(h)-1] + string(alpha[alt])
+		}
+	}
+	i := 1 + r.Intn(len(h)-1)
+	return h[:i] + "\n" + h[i:]
 }
 
 func unsupportedHash(r *fw.Rand) string { return oracle.B64(oracle.WrapDigest(0x16, r.Bytes(32))) }
@@ -110,6 +146,21 @@ var failClasses = []failClass{
 	}},
 	{"extra-protected-header-crit", "urd", func(h *histCtx, s *opStep) {
 		s.Spec.Headers = map[string]interface{}{"alg": s.Spec.Signer.Alg(), "kid": "k", "crit": []interface{}{"kid"}}
+		s.Facts.ParseOK = false
+	}},
+	{"extra-protected-header-null-valued", "urd", func(h *histCtx, s *opStep) {
+		s.Spec.Headers = map[string]interface{}{"alg": s.Spec.Signer.Alg(), fw.Pick(h.r, []string{"typ", "crit", "jku", "b64"}): nil}
+		s.Facts.ParseOK = false
+	}},
+	{"reveal-truncated-digest", "urd", func(h *histCtx, s *opStep) {
+		// a well-formed multihash of an allowed algorithm whose digest is a shortened prefix (down to length 0) is not the key's hash
+		d, _ := oracle.DecodeEncodedMultihash(s.Spec.Signer.Reveal(h.code))
+		n := fw.Pick(h.r, []int{0, 1, 4, 16, len(d.Digest) - 1})
+		s.Spec.Reveal = gen.S(oracle.B64(oracle.WrapDigest(h.code, d.Digest[:n])))
+		s.Facts.ParseOK = false
+	}},
+	{"reveal-noncanonical-spelling", "urd", func(h *histCtx, s *opStep) {
+		s.Spec.Reveal = gen.S(nonCanonicalSpelling(h.r, s.Spec.Signer.Reveal(h.code)))
 		s.Facts.ParseOK = false
 	}},
 	{"alg-none", "urd", func(h *histCtx, s *opStep) {
@@ -222,6 +273,20 @@ var failClasses = []failClass{
 			other = map[string]interface{}{"updateCommitment": s.Spec.UpdateCommitment, "patches": []interface{}{gen.PAddKeys(gen.RandDocKey(h.r, "intruder"))}}
 		}
 		s.Spec.RequestDelta = other
+		s.Facts.DeltaBound = false
+	}},
+	{"delta-hash-truncated-digest", "cur", func(h *histCtx, s *opStep) {
+		s.Spec.DeltaHash = gen.S("pending")
+		s.Spec.PostBuildDeltaHash = func(honest string) string {
+			d, _ := oracle.DecodeEncodedMultihash(honest)
+			n := fw.Pick(h.r, []int{0, 1, 8, len(d.Digest) - 1})
+			return oracle.B64(oracle.WrapDigest(h.code, d.Digest[:n]))
+		}
+		s.Facts.DeltaBound = false
+	}},
+	{"delta-hash-noncanonical-spelling", "cur", func(h *histCtx, s *opStep) {
+		s.Spec.DeltaHash = gen.S("pending")
+		s.Spec.PostBuildDeltaHash = func(honest string) string { return nonCanonicalSpelling(h.r, honest) }
 		s.Facts.DeltaBound = false
 	}},
 	{"delta-missing", "cur", func(h *histCtx, s *opStep) {
@@ -617,6 +682,18 @@ func runHistoryProto(c *fw.Case, plan []planEntry, keyType string, code uint64, 
 	// the genesis time of the protocol is bookkeeping only: no outcome may depend on it
 	proto.GenesisTime = fw.Pick(r, []uint64{0, 0, 777, 1000000})
 	st := histStackFactory(proto)
+	// anchored operations are applied in batch mode: request-time validators (anchor origin, server time) have no say.
+	// A fifth of the histories runs on a stack whose validators refuse everything; outcomes must be the same.
+	hostile := &hostileValidators{}
+	if r.Chance(1, 5) {
+		st = sut.NewStack(proto, operationparser.WithAnchorOriginValidator(hostile), operationparser.WithAnchorTimeValidator(hostileTime{hostile}))
+		c.Count("histories-with-refusing-validators", 1)
+	}
+	defer func() {
+		if hostile.calls > 0 {
+			c.Failf("applier-consults-request-time-validators", map[string]interface{}{"calls": hostile.calls}, "applying anchored operations consulted request-time validators %d times", hostile.calls)
+		}
+	}()
 	h := &histCtx{r: r, proto: proto, code: code, keyType: keyType, hasIETF: withIETF}
 	pubs, unpubs := randOpList(r), randOpList(r)
 	actual := &protocol.ResolutionModel{PublishedOperations: pubs, UnpublishedOperations: unpubs}
